@@ -53,6 +53,9 @@ class Check:
         self.seed = seed
         self.t0 = time.time()
         self.wd = tlc.workdir(f"{pid}-{tier}")
+        if REPLAY_DIR.exists() and not os.environ.get("VERIF_KEEP_REPLAYS"):
+            for old in REPLAY_DIR.glob(f"{pid}-*"):
+                old.unlink()
         self.tlc_runs: list[dict] = []
         self.states = 0
         self.transitions = 0
